@@ -1,5 +1,244 @@
 import Sentinel.Drv.Common
-/-! Driver for C14 (stub: replaced by the property's real driver) -/
+import Sentinel.Model.Reuse
+/-! Driver for C14.
+`model`  = the reuse calculus + controller semantics, run over both phases of a case;
+`oracle` = judges the implementation's own trace: a decision of phase B (same traffic, no reloads) must equal the
+           decision of phase A (with reloads) on every resource whose rules the reloads left unchanged. -/
 namespace Sentinel.Drv.C14
-def run (_mode : String) : IO Unit := IO.eprintln "C14: driver not implemented"
+open Sentinel.Reuse Sentinel.Drv
+
+/-- rules that can never refuse a request in a case (fewer than a million requests): they make edits to the
+    *same* resource's list visible at the decision level -/
+def bigThr : Nat := 1000000
+
+def nums (s : String) : Option (List Nat) := (s.splitOn ":").mapM (·.toNat?)
+
+def parseCb (s : String) : Option CbRule := match nums s with
+  | some [id, res, strat, retry, minReq, statIv, buckets, maxRt, thr, probe] =>
+    some { id, res, strat, retry, minReq, statIv, buckets, maxRt, thr, probe }
+  | _ => none
+
+def parseFlow (s : String) : Option FlowRule := match nums s with
+  | some [id, res, tcs, cb, thr, rel, ref, maxQ, period, cf, statIv] =>
+    some { id, res, tcs, cb, thr, rel, ref, maxQ, period, cf, statIv }
+  | _ => none
+
+def parseHot (s : String) : Option HotRule := match nums s with
+  | some [id, res, mtype, cb, pidx, thr, maxQ, burst, dur, cap, items, sval, sthr] =>
+    some { id, res, mtype, cb, pidx, thr, maxQ, burst, dur, cap, items, sval, sthr }
+  | _ => none
+
+def parseList {α} (p : String → Option α) (s : String) : Option (List α) :=
+  if s == "-" then some [] else (s.splitOn ",").mapM p
+
+/-- what the model can execute (anything else is `bad-op`) -/
+def cbSupported (r : CbRule) : Bool := r.strat == 1 || r.strat == 2
+def flowSupported (r : FlowRule) : Bool :=
+  r.rel == 0 && r.ref == 0 && (r.tcs == 0 || (r.tcs == 1 && r.cb == 0 && r.thr > 0))
+
+def hotSupported (r : HotRule) : Bool := r.mtype == 1 && r.cb == 0 && r.pidx == 0 && r.items != 1
+def hotInert (r : HotRule) : Bool := r.cb == 0 && r.thr ≥ bigThr && (r.items != 2 || r.sthr ≥ bigThr)
+def cbInert (r : CbRule) : Bool := r.strat == 2 && r.thr ≥ bigThr
+def flowInert (r : FlowRule) : Bool := r.tcs == 0 && r.cb == 0 && r.thr ≥ bigThr
+
+structure Flags where
+  unclaimed : Bool := false
+  steal : Bool := false
+  warm : Bool := false
+deriving Repr
+
+structure St where
+  cb : Mgr CbRule CbSt := Mgr.empty
+  flow : Mgr FlowRule FlowSt := Mgr.empty
+  hot : Mgr HotRule HotSt := Mgr.empty
+  now : Nat := 1900000000000     -- every phase starts at the same virtual time
+  nodes : List (Nat × Sentinel.LA.Arr Nat) := []     -- resource nodes: pass counts (20 × 500 ms)
+  -- oracle side
+  phaseB : Bool := false
+  cbRaw : List (Nat × List CbRule) := []       -- what the caller passed last for each resource (valid rules)
+  flowRaw : List (Nat × List FlowRule) := []
+  hotRaw : List (Nat × List HotRule) := []
+  flags : List (Nat × Flags) := []
+  reloaded : Bool := false
+  allUnclaimed : Bool := false
+  recA : Array (Option String × Flags) := #[]   -- phase A: every entry's result and the flags of its resource at that time
+  recOps : Array (List String) := #[]          -- model side: the non-reload ops of phase A (replayed by `phase B`)
+
+def lookup {α} (d : α) (xs : List (Nat × α)) (k : Nat) : α := ((xs.find? (·.1 == k)).map (·.2)).getD d
+def assoc {α} (xs : List (Nat × α)) (k : Nat) (v : α) : List (Nat × α) := (k, v) :: xs.filter (·.1 != k)
+
+def nodeOf (s : St) (x : Nat) : Sentinel.LA.Arr Nat := lookup (Sentinel.LA.mk 20 500 s.now) s.nodes x
+
+/-- one entry (with its completion) on resource `x` -/
+def entry (s : St) (x : Nat) (err : Bool) (arg : Nat) : St × String :=
+  let node := nodeOf s x
+  let s := { s with nodes := assoc s.nodes x node }
+  let (fb, w, fcs) := flowScan s.now (flowRead node s.now) (s.flow.ctls x)
+  let s := { s with flow := s.flow.set x fcs }
+  match fb with
+  | some id => (s, s!"block flow {id}")
+  | none =>
+    let (hb, hcs) := if arg = 0 then (none, s.hot.ctls x) else hotScan s.now arg (s.hot.ctls x)
+    let s := { s with hot := s.hot.set x hcs }
+    match hb with
+    | some id => (s, s!"block hot {id}")
+    | none =>
+    let (cbb, ccs) := cbCheck s.now (s.cb.ctls x)
+    match cbb with
+    | some id => ({ s with cb := s.cb.set x ccs }, s!"block cb {id}")
+    | none =>
+      -- passed every check: the stat slots count the pass, the completion feeds the breakers
+      let node := (Sentinel.LA.addAt node s.now 1).1
+      let fcs := fcs.map (flowRecordPass s.now)
+      let ccs := ccs.map (cbComplete s.now err)
+      ({ s with cb := s.cb.set x ccs, flow := s.flow.set x fcs, nodes := assoc s.nodes x node },
+        if w = 0 then "pass" else s!"pass wait {w}")
+
+/-- oracle bookkeeping for one reload of a module: per resource, was the list left unchanged (inert rules aside),
+    and does the `NoSteal` hypothesis hold -/
+def judgeReload {R S} [DecidableEq R] (K : Calc R S) (valid : R → Bool) (res : R → Nat) (inert : R → Bool)
+    (warmKey : Bool)
+    (m : Mgr R S) (raw : List (Nat × List R)) (rules : List R) (only : Option Nat) (fl : List (Nat × Flags)) :
+    List (Nat × Flags) × List (Nat × List R) :=
+  let xs := match only with
+    | some x => [x]
+    | none => ((rules.map res) ++ raw.map Prod.fst).eraseDups
+  xs.foldl (fun (acc : List (Nat × Flags) × List (Nat × List R)) x =>
+    let n := rulesOf valid res x rules
+    let o := lookup [] raw x
+    let f : Flags := lookup ({} : Flags) acc.1 x
+    let same := decide (n.filter (!inert ·) = o.filter (!inert ·))
+    let f := if !same then { f with unclaimed := true } else f
+    let f := if same && !noStealB K n (m.ctls x) then { f with steal := true } else f
+    -- a rule the constructor normalises, reloaded as it was: only the flow warm-up calculator loses state by that
+    let f := if warmKey && same && n.any (fun r => decide (K.norm r ≠ r) && o.contains r) then { f with warm := true } else f
+    (assoc acc.1 x f, assoc acc.2 x n)) (fl, raw)
+
+def doLoad (oracle : Bool) (s : St) (modl : String) (re : Bool) (only : Option Nat) (arg : String) : St × Option String :=
+  let s := if oracle && !re && s.reloaded then { s with allUnclaimed := true } else s
+  let s := if re then { s with reloaded := true } else s
+  if modl == "cb" then
+    match parseList parseCb arg with
+    | none => (s, some "bad-op")
+    | some rules =>
+      if !rules.all cbSupported then (s, some "bad-op") else
+      let (fl, raw) := if oracle then
+          (if re then judgeReload cbCalc CbRule.valid (·.res) cbInert false s.cb s.cbRaw rules only s.flags
+           else (s.flags, (judgeReload cbCalc CbRule.valid (·.res) cbInert false s.cb s.cbRaw rules only s.flags).2))
+        else (s.flags, s.cbRaw)
+      let m := match only with
+        | none => s.cb.loadRules cbCalc CbRule.valid (·.res) s.now rules
+        | some x => s.cb.loadRulesOfResource cbCalc CbRule.valid (·.res) s.now x rules
+      ({ s with cb := m, flags := fl, cbRaw := raw }, none)
+  else if modl == "flow" then
+    match parseList parseFlow arg with
+    | none => (s, some "bad-op")
+    | some rules =>
+      if !rules.all flowSupported then (s, some "bad-op") else
+      let (fl, raw) := if oracle then
+          (if re then judgeReload flowCalc FlowRule.valid (·.res) flowInert true s.flow s.flowRaw rules only s.flags
+           else (s.flags, (judgeReload flowCalc FlowRule.valid (·.res) flowInert true s.flow s.flowRaw rules only s.flags).2))
+        else (s.flags, s.flowRaw)
+      let m := match only with
+        | none => s.flow.loadRules flowCalc FlowRule.valid (·.res) s.now rules
+        | some x => s.flow.loadRulesOfResource flowCalc FlowRule.valid (·.res) s.now x rules
+      ({ s with flow := m, flags := fl, flowRaw := raw }, none)
+  else if modl == "hot" then
+    match parseList parseHot arg with
+    | none => (s, some "bad-op")
+    | some rules =>
+      if !rules.all hotSupported then (s, some "bad-op") else
+      let (fl, raw) := if oracle then
+          (if re then judgeReload hotCalc HotRule.valid (·.res) hotInert false s.hot s.hotRaw rules only s.flags
+           else (s.flags, (judgeReload hotCalc HotRule.valid (·.res) hotInert false s.hot s.hotRaw rules only s.flags).2))
+        else (s.flags, s.hotRaw)
+      let m := match only with
+        | none => s.hot.loadRules hotCalc HotRule.valid (·.res) s.now rules
+        | some x => s.hot.loadRulesOfResource hotCalc HotRule.valid (·.res) s.now x rules
+      ({ s with hot := m, flags := fl, hotRaw := raw }, none)
+  else (s, some "bad-op")
+
+/-- one op on the model (no phases) -/
+def stepCore (s : St) (ts : List String) : St × Option String :=
+  match ts with
+  | ["t", t] => match t.toNat? with
+    | some t => ({ s with now := t }, none)
+    | none => (s, some "bad-op")
+  | ["e", x, err] => match x.toNat?, err.toNat? with
+    | some x, some err => let (s, r) := entry s x (err != 0) 0; (s, some r)
+    | _, _ => (s, some "bad-op")
+  | ["e", x, err, a] => match x.toNat?, err.toNat?, a.toNat? with
+    | some x, some err, some a => let (s, r) := entry s x (err != 0) a; (s, some r)
+    | _, _, _ => (s, some "bad-op")
+  | [op, arg] =>
+    match op.splitOn "." with
+    | [m, "load"] => doLoad false s m false none arg
+    | [m, "reload"] => doLoad false s m true none arg
+    | _ => (s, some "bad-op")
+  | [op, x, arg] =>
+    match op.splitOn ".", x.toNat? with
+    | [m, "loadres"], some x => doLoad false s m false (some x) arg
+    | [m, "reloadres"], some x => doLoad false s m true (some x) arg
+    | _, _ => (s, some "bad-op")
+  | _ => (s, some "bad-op")
+
+def isReload (ts : List String) : Bool := match ts with
+  | op :: _ => op.endsWith ".reload" || op.endsWith ".reloadres"
+  | [] => false
+
+/-- `model` step.  `phase B` runs the recorded ops of phase A that are not reloads again, from scratch, and answers with
+    the decisions of that second run. -/
+def stepModel (s : St) (ts : List String) (_ : String) : St × Option String :=
+  match ts with
+  | ["phase", "B"] =>
+    let (_, rs) := s.recOps.foldl (fun (acc : St × Array String) o =>
+      let (s', r) := stepCore acc.1 o
+      (s', match o, r with | "e" :: _, some r => acc.2.push r | _, _ => acc.2)) (({} : St), #[])
+    (s, some (if rs.isEmpty then "-" else ";".intercalate rs.toList))
+  | _ =>
+    let (s', r) := stepCore s ts
+    (if isReload ts || r == some "bad-op" then s' else { s' with recOps := s.recOps.push ts }, r)
+
+/-- `oracle` step: reads the implementation's trace.  Phase A: follow the rule lists (through the model's managers) and
+    remember every decision with the claim flags of its resource; the `phase B` line carries the decisions of the run
+    without reloads, which are compared one by one. -/
+def stepOracle0 (s : St) (ts : List String) (line : String) : St × Option String :=
+  let res := resPart line
+  match ts with
+  | ["phase", "B"] =>
+    let rb := match res with
+      | some "-" => []
+      | some r => r.splitOn ";"
+      | none => []
+    if rb.length != s.recA.size then (s, some s!"bad count {rb.length}/{s.recA.size}") else
+    let verdicts := (s.recA.toList.zip rb).map fun ((ra, fl), b) =>
+      if ra == some b then 0 else if fl.unclaimed then 0 else if fl.steal then 1 else if fl.warm then 2 else 3
+    let firstBad := ((s.recA.toList.zip rb).zip verdicts).findIdx? fun p => p.2 == 3
+    match firstBad with
+    | some i => (s, some s!"bad decision {i} differs")
+    | none =>
+      if verdicts.contains 1 then (s, some "known:reuse-steals-controller")
+      else if verdicts.contains 2 then (s, some "known:warmup-reload-resets")
+      else (s, some "ok")
+  | "e" :: x :: _ =>
+    let x := x.toNat?.getD 0
+    let f : Flags := lookup ({} : Flags) s.flags x
+    let f := if s.allUnclaimed then { f with unclaimed := true } else f
+    ({ s with recA := s.recA.push (res, f) }, some "?")
+  | ["t", _] => (s, none)
+  | _ =>
+    let re := isReload ts
+    match ts with
+    | [op, arg] => doLoad true s ((op.splitOn ".").headD "") re none arg
+    | [op, x, arg] => doLoad true s ((op.splitOn ".").headD "") re x.toNat? arg
+    | _ => (s, some "bad-op")
+
+def stepOracle (s : St) (ts : List String) (line : String) : St × Option String :=
+  let (s', r) := stepOracle0 s ts line
+  if r == some "bad-op" then (s', r)
+  else if (resPart line).any (·.startsWith "PANIC") then (s', some "bad panic") else (s', r)
+
+def run (mode : String) : IO Unit :=
+  if mode == "oracle" then loop ({} : St) stepOracle else loop ({} : St) stepModel
+
 end Sentinel.Drv.C14
